@@ -129,6 +129,7 @@ class Scheduler:
     self.on_step = None
     self.cache = cache        # happens-before cache of expanded nodes
     self.pause_focus = frozenset(pause_focus or ())
+    self.pollers = set()      # threads that polled (yielded) since the last tick
     self.hb = True
     self.trace_hash = 0
     self._lw = {}    # object -> vc of last write
@@ -375,6 +376,7 @@ class Scheduler:
     cur = self.current
     self._event(cur, kind, obj)
     cur.yielded = True
+    self.pollers.add(cur)
     nxt = self._pick(cur=cur, kind=kind)
     self._switch(cur, nxt)
 
@@ -386,6 +388,7 @@ class Scheduler:
     self._event(cur, kind, obj)
     cur.state, cur.pred, cur.deadline, cur.timed_out = (
         BLOCKED, pred, deadline, False)
+    self.pollers.discard(cur)
     nxt = self._pick(cur=cur, kind=kind)
     self._switch(cur, nxt)
     ok = not cur.timed_out
@@ -439,6 +442,21 @@ class Scheduler:
     while True:
       enabled = [t for t in self.threads if self._is_enabled(t)]
       if enabled:
+        # Pollers that only hand the baton to each other make no progress in
+        # real time either: when the caller has just polled and everybody who
+        # could run has polled since the last tick, time passes.
+        if (cur is not None and cur.yielded and cur.state == RUN
+            and self.pollers and all(t in self.pollers for t in enabled)):
+          pending = [t.deadline for t in self.threads
+                     if t.state == BLOCKED and t.deadline is not None]
+          pending += [d for d, _ in self.timers]
+          if pending:
+            target = min(self.clock + self.TICK, min(pending))
+            self.pollers.clear()
+            self._advance(target)
+            for t in self.threads:
+              t.yielded = False
+            continue
         break
       # quiescence -------------------------------------------------------------
       yielded = [t for t in self.threads if t.state == RUN and t.yielded]
@@ -450,6 +468,7 @@ class Scheduler:
         target = self.clock + self.TICK
         if deadlines and min(deadlines) < target:
           target = min(deadlines)
+        self.pollers.clear()
         self._advance(target)
         for t in yielded:
           t.yielded = False
